@@ -151,8 +151,9 @@ def families(args):
 
     items = [Item(n) for n in ('source_text', 'library_text', 'utils::paren', 'utils::paren_exact', 'utils::bracket', 'utils::brace', 'utils::apostrophe_brace')]
     for lib in (False, True):
-        c = c20.pp_case(lib)
-        items.append(Item('parse-location/' + c.label, c.fn))
+        for k in range(len(c20.SEG_LAYOUTS)):
+            c = c20.pp_case(lib, k)
+            items.append(Item('parse-location/' + c.label, c.fn))
     items.append(pp_location_case())
     for name, before, fault in FAULTS:
         for inc in (False, True):
